@@ -29,6 +29,7 @@ def run(ctx):
     ctx.call(GR.index_consistency, "5")
     ctx.call(GR.name_forms, "7n")
     ctx.call(GR.node_objects, "8")
+    ctx.call(GR.worker_symmetry, "9")
 
 
 NODE = "cartgraph/node.py"
